@@ -23,7 +23,8 @@ CONSTANTS Layouts     \* set of [items : Seq(Item), pkgdoc, build, imports, sibl
    [k |-> "decl", id, form (var|func|type|const), doc, trail, gen]        gen: a go:generate line sits in/above its doc
    [k |-> "intf", id, named (TRUE: the interface is called Convergen), marked (doc has a :convergen line),
          lookalike (doc has marker-like text that is no marker), doc (own non-notation doc lines), gen,
-         nmeth, short, oneline, mdoc, trail, after, gap]
+         nmeth, short, oneline, mdoc, trail, after, gap, long (a comment line much longer than the directive line below it),
+         nm (how the interface is called relative to the file's other converter interface: std | prefix | long)]
    [k |-> "tmark", id]     a non-interface type whose doc carries a :convergen line
    [k |-> "float", id]     a comment attached to nothing
    sibling: "none" | "marked" | "named"   another file of the package with a marked / Convergen-named interface
